@@ -499,6 +499,10 @@ class Interp:
                 return Z(t, smt.dyn_acc("DList", 0, v.e))
             if v.t.kind == "dyn" and t.kind == "float":
                 return Z(t, smt.dyn_acc("DFloat", 0, v.e))
+            if v.t.kind == "tuple" and t.kind == "ref":
+                return self.tuple_as_ref(st, v, t)
+            if v.t.kind == "seq" and t.kind == "seq" and v.t.args[0].kind == "tuple" and t.args[0].kind == "ref":
+                raise OutsideSubset("list of tuples where a list of objects is expected")
             raise OutsideSubset(f"cannot coerce {v.t} to {t}")
         if t.kind == "dyn":
             return Z(t, self.to_dyn(st, v))
@@ -524,12 +528,36 @@ class Interp:
                 return Z(t, z3.Concat(*us) if len(us) > 1 else us[0])
             if o.kind == "obj" and t.kind == "ref":
                 return self.freeze(st, v)
+        if isinstance(v, PyTuple) and t.kind == "ref" and all(isinstance(x, Z) and x.t.kind == "ref" for x in v.items):
+            tt = T("tuple", tuple(x.t for x in v.items))
+            return self.tuple_as_ref(st, self.to_z(st, v, tt), t)
         if isinstance(v, PyTuple) and t.kind == "tuple" and len(v.items) == len(t.args):
             srt, mk, accs = smt.tuple_sort(tuple(a.z3sort() for a in t.args))
             return Z(t, mk(*[self.to_z(st, x, a).e for x, a in zip(v.items, t.args)]))
         if isinstance(v, RangeVal) and t.kind == "seq":
             raise OutsideSubset("range as seq")
         raise OutsideSubset(f"cannot convert {v!r} to {t}")
+
+    def tuple_as_ref(self, st, v: Z, t: T) -> Z:
+        """A tuple used where an object of a `tuplelike` class model is expected (e.g. the (struct, field) pairs handed to a
+        check): an injection into Ref whose modelled fields are the components."""
+        cands = [(cn, m) for cn, m in self.classes.items() if m.get("tuplelike") and len(m["tuplelike"]) == len(v.t.args)
+                 and (t.cls is None or cn == t.cls)]
+        if len(cands) != 1:
+            raise OutsideSubset(f"tuple {v.t} used as an object: no unique tuplelike class model")
+        cn, m = cands[0]
+        srt, mk, accs = smt.tuple_sort(tuple(a.z3sort() for a in v.t.args))
+        inj = smt.ufunc(f"tup2ref.{cn}", srt, Ref)
+        inv = smt.ufunc(f"ref2tup.{cn}", Ref, srt)
+        r = inj(v.e)
+        ax = [inv(r) == v.e, smt.cls_of(r) == z3.StringVal(cn)]
+        for i, f in enumerate(m["tuplelike"]):
+            ft = self.field_T(cn, f)
+            ax.append(self.field_fn(f, ft)(r) == accs[i](v.e))
+        axm = z3.And(ax)
+        bs = [b for b in st.bound if self._mentions(axm, b)]
+        st.axioms.append(z3.ForAll(bs, axm, patterns=[r]) if bs else axm)
+        return Z(T("ref", (), cn), r)
 
     def freeze(self, st: State, ref: HeapRef) -> Z:
         """A heap object of a value class becomes a fresh Ref constrained field by field."""
@@ -660,6 +688,13 @@ class Interp:
             if a.e.sort() == b.e.sort():
                 return a.e == b.e
             return z3.BoolVal(False)
+        if isinstance(a, PyTuple) and isinstance(b, Z) and b.t.kind == "tuple":
+            a, b = b, a
+        if isinstance(a, Z) and a.t.kind == "tuple" and isinstance(b, PyTuple):
+            if len(a.t.args) != len(b.items):
+                return z3.BoolVal(False)
+            srt, mk, accs = smt.tuple_sort(tuple(x.z3sort() for x in a.t.args))
+            return z3.And([self.eq(st, Z(t, accs[i](a.e)), y) for i, (t, y) in enumerate(zip(a.t.args, b.items))])
         if isinstance(a, PyTuple) and isinstance(b, PyTuple):
             if len(a.items) != len(b.items):
                 return z3.BoolVal(False)
